@@ -30,36 +30,62 @@ theorem outEdges_mem (G : PiDag) (h : wfGrouped G = true) (u : Nat) (hu : u < G.
   rw [← hje]
   simpa using this
 
-theorem flatten_khyp (sc nw : Nat) (d : DNode) (h : gTask d = true) :
-    KHyp (flatten sc nw d) (fun v => (preN d 0 1).idxOf v) := by
+/-- the node array of `finishDag T st nw` has the layout of `T` -/
+theorem finishDag_lay (T : Array PNode) (st : List Nat) (nw : Nat) (d : DNode) (hl : LayN T d 0 1)
+    (hn : T.size = 1 + descT d) :
+    LayN (finishDag T st nw).T d 0 1 ∧ (finishDag T st nw).T.size = 1 + descT d := by
+  unfold finishDag
+  simp only
+  exact ⟨LayN_congr' _ _ d 0 1 (fun j _ => setEdgePtrs_shape _ _ j) hl, by rw [(setEdgePtrs_spec _ _).1]; exact hn⟩
+
+theorem finishDag_wfStrings (T : Array PNode) (st : List Nat) (nw : Nat) (h : StrOK T st) :
+    wfStrings (finishDag T st nw) = true := by
+  unfold wfStrings finishDag
+  simp only [Bool.and_eq_true, decide_eq_true_eq]
+  refine ⟨?_, h.1⟩
+  rw [Array.all_eq_true]
+  intro j hj
+  have hs := setEdgePtrs_spec T (sortEdges (enumEdges T))
+  have hj' : j < T.size := by rw [← hs.1]; exact hj
+  have := h.2 j hj'
+  have e := hs.2 j
+  rw [getElem!_pos _ j hj] at e
+  simp only [Bool.and_eq_true, decide_eq_true_eq]
+  rw [e]
+  exact this
+
+theorem finishDag_khyp (T : Array PNode) (st : List Nat) (nw : Nat) (d : DNode) (hlT1 : LayN T d 0 1)
+    (hlT2 : T.size = 1 + descT d) (h : gTask d = true) :
+    KHyp (finishDag T st nw) (fun v => (preN d 0 1).idxOf v) := by
   have hw := gTask_gW d h
-  have hlT := enumNodes_lay sc d
-  have hlG := flatten_lay sc nw d
-  have hgr : wfGrouped (flatten sc nw d) = true := flatten_wfGrouped sc nw d h
-  have hdeg : wfDegrees (flatten sc nw d) = true := flatten_wfDegrees sc nw d h
-  have hsize : (flatten sc nw d).T.size = (enumNodes sc d).T.size := by rw [hlG.2, hlT.2]
-  have hE : (flatten sc nw d).E.toList = sortEdges (enumEdges (enumNodes sc d).T) := by
-    simp [flatten, finishDag]
-  have hshape : ∀ r, isLeaf (flatten sc nw d).T[r]! = isLeaf (enumNodes sc d).T[r]! := fun r => by
-    simp only [flatten, finishDag]
+  have hlT : LayN T d 0 1 ∧ T.size = 1 + descT d := ⟨hlT1, hlT2⟩
+  have hlG := finishDag_lay T st nw d hlT1 hlT2
+  have hendsT := enumEdges_ends T d hlT.1 hlT.2 hw
+  have hgr : wfGrouped (finishDag T st nw) = true :=
+    finishDag_grouped _ _ _ (by rw [hlT2]; omega) (fun e he => (hendsT e he).1.1)
+  have hdeg : wfDegrees (finishDag T st nw) = true := wfDegrees_of_grouped _ hgr
+  have hsize : (finishDag T st nw).T.size = T.size := by rw [hlG.2, hlT.2]
+  have hE : (finishDag T st nw).E.toList = sortEdges (enumEdges T) := by
+    simp [finishDag]
+  have hshape : ∀ r, isLeaf (finishDag T st nw).T[r]! = isLeaf T[r]! := fun r => by
+    simp only [finishDag]
     exact isLeaf_shape (setEdgePtrs_shape _ _ _)
-  have hperm : ∀ e, e ∈ (flatten sc nw d).E.toList ↔ e ∈ teN (kfOf (enumNodes sc d).T) d 0 1 := by
+  have hperm : ∀ e, e ∈ (finishDag T st nw).E.toList ↔ e ∈ teN (kfOf T) d 0 1 := by
     intro e
     rw [hE, mem_sortEdges]
     exact (enumEdges_perm _ d hlT.1 hlT.2 hw).mem_iff
-  have hendsT := enumEdges_ends (enumNodes sc d).T d hlT.1 hlT.2 hw
-  have hmemT : ∀ e, e ∈ (flatten sc nw d).E.toList → e ∈ enumEdges (enumNodes sc d).T := by
+  have hmemT : ∀ e, e ∈ (finishDag T st nw).E.toList → e ∈ enumEdges T := by
     intro e he; rw [hE, mem_sortEdges] at he; exact he
-  have hfl : firstLeaf (flatten sc nw d) = firstN d 0 1 := by
+  have hfl : firstLeaf (finishDag T st nw) = firstN d 0 1 := by
     unfold firstLeaf
     exact first_eq _ d 0 1 _ hlG.1 hw (by rw [hlG.2]; omega)
-  have hindeg : ∀ v, v < (flatten sc nw d).T.size →
-      (indegrees (flatten sc nw d))[v]! = cntV (flatten sc nw d).E.toList v := by
+  have hindeg : ∀ v, v < (finishDag T st nw).T.size →
+      (indegrees (finishDag T st nw))[v]! = cntV (finishDag T st nw).E.toList v := by
     intro v hv
     unfold indegrees
     rw [← Array.foldl_toList, foldl_modify_get _ _ v (by simpa using hv), replicate_get!]
     omega
-  have hleafmem : ∀ v, v < (enumNodes sc d).T.size → isLeaf (enumNodes sc d).T[v]! = true → v ∈ leavesN d 0 1 := by
+  have hleafmem : ∀ v, v < T.size → isLeaf T[v]! = true → v ∈ leavesN d 0 1 := by
     intro v hv hl
     exact leaf_memN _ d 0 1 hlT.1 hw v (by simp only [InN]; rw [hlT.2] at hv; omega) hl
   have hflin := firstN_in d 0 1
@@ -73,14 +99,14 @@ theorem flatten_khyp (sc nw : Nat) (d : DNode) (h : gTask d = true) :
     exact ⟨by rw [hsize]; exact q3, by rw [hshape]; exact q2, by rw [hshape]; exact q4⟩
   · intro u hu e he
     obtain ⟨h1, h2⟩ := outEdges_mem _ hgr u hu e he
-    have := ordN (kfOf (enumNodes sc d).T) d 0 1 (by omega) e ((hperm e).mp h1)
+    have := ordN (kfOf T) d 0 1 (by omega) e ((hperm e).mp h1)
     rw [h2] at this
     exact this.2.2
   · rw [hindeg _ (by rw [hfl, hlG.2]; simp only [InN] at hflin; omega)]
     apply Classical.byContradiction
     intro h0
-    obtain ⟨e, he, hev⟩ := cntV_pos (show 0 < cntV (flatten sc nw d).E.toList (firstLeaf (flatten sc nw d)) by omega)
-    have hb := ordN (kfOf (enumNodes sc d).T) d 0 1 (by omega) e ((hperm e).mp he)
+    obtain ⟨e, he, hev⟩ := cntV_pos (show 0 < cntV (finishDag T st nw).E.toList (firstLeaf (finishDag T st nw)) by omega)
+    have hb := ordN (kfOf T) d 0 1 (by omega) e ((hperm e).mp he)
     obtain ⟨⟨q1, q2⟩, _⟩ := hendsT e (hmemT e he)
     have hmin := minN d 0 1 (by omega) e.u (hleafmem e.u q1 q2)
     have := hb.2.2
@@ -90,12 +116,35 @@ theorem flatten_khyp (sc nw : Nat) (d : DNode) (h : gTask d = true) :
     rw [hindeg i hi]
     rw [hshape] at hl
     have hm := hleafmem i (by rw [← hsize]; exact hi) hl
-    obtain ⟨e, he, hev⟩ := leaf_has_in (kfOf (enumNodes sc d).T) d h i hm (by rw [← hfl]; exact hne)
+    obtain ⟨e, he, hev⟩ := leaf_has_in (kfOf T) d h i hm (by rw [← hfl]; exact hne)
     have := cntV_pos_of_mem ((hperm e).mpr he)
     rw [hev] at this
     exact this
   · intro v hv
     rw [← arrEqUpTo_get _ _ _ hdeg v hv, sliceDegrees_get _ v hv]
+
+/-- **every DAG built by `finishDag` (edges, sort, edge pointers) from a node array that is the
+    layout of a tree of the recorder's shape, with a sound string table, is well formed** -/
+theorem finishDag_wellFormed (T : Array PNode) (st : List Nat) (nw : Nat) (d : DNode) (hl : LayN T d 0 1)
+    (hn : T.size = 1 + descT d) (h : gTask d = true) (hs : StrOK T st) : wellFormed (finishDag T st nw) = true := by
+  have hw := gTask_gW d h
+  have hlG := finishDag_lay T st nw d hl hn
+  have hends := enumEdges_ends T d hl hn hw
+  have hgr : wfGrouped (finishDag T st nw) = true :=
+    finishDag_grouped _ _ _ (by rw [hn]; omega) (fun e he => (hends e he).1.1)
+  have hcnt : ((finishDag T st nw).E.size == countEdges (finishDag T st nw).T) = true := by
+    have := counted_of_lay T (finishDag T st nw).T d hl hn hlG.1 hlG.2 h
+    simp only [beq_iff_eq]
+    rw [← this]
+    simp [finishDag, sortEdges, List.length_mergeSort]
+  unfold wellFormed wfReport
+  simp only [Bool.and_eq_true]
+  exact ⟨⟨⟨⟨⟨⟨wfOffsets_of_lay _ d hlG.1 hlG.2 hw, finishDag_edgeEnds _ _ _ hends⟩, hgr⟩, hcnt⟩,
+    finishDag_wfStrings T st nw hs⟩, wfDegrees_of_grouped _ hgr⟩, wfCertificate_of_hyp _ _ (finishDag_khyp T st nw d hl hn h)⟩
+
+theorem flatten_khyp (sc nw : Nat) (d : DNode) (h : gTask d = true) :
+    KHyp (flatten sc nw d) (fun v => (preN d 0 1).idxOf v) :=
+  finishDag_khyp _ _ nw d (enumNodes_lay sc d).1 (enumNodes_lay sc d).2 h
 
 /-- **certificate**: for every dump of a recorded DAG the in-degree driven elimination from the
     first leaf is a topological order that covers every leaf; every leaf but the first has a
